@@ -1,5 +1,6 @@
 """C07 Header rows are skipped; the validation limit bounds validation, not data."""
 import io
+import itertools
 import os
 
 from cpverif import attach, gen, storage
@@ -8,7 +9,7 @@ from cpverif.models import rowmodel as RM
 LEVEL = "exploration"
 RULE = (
     "enumerated: header 0-3 x number of rows 0-6 (header rows included) x one bad row (rejected cell, or wrong item count "
-    "for delimited data) at every position incl. inside the header, or no bad row x validation limit in {none, 0 .. "
+    "for delimited data) at every position incl. inside the header, or no bad row, or (cutplace.rows only) two rows with a rejected cell at every pair of positions x validation limit in {none, 0 .. "
     "rows+1} x API {cutplace.rows in yield mode, cutplace.validate, applications.main --until (in-process); sampled: two passes over one Reader, the CID named by a path whose file is rewritten for every case} x storage "
     "{delimited, fixed; thorough also ODS and XLSX}. Expected from M-reader with the (header, limit) window; for "
     "cutplace.validate a generator monitor on Reader.rows additionally counts the rows pulled (must not exceed the limit). "
@@ -29,7 +30,7 @@ def build(kind, header, nrows, bad_at, bad_kind):
     table = []
     for r in range(1, nrows + 1):
         row = [str(100 + r), "r%d" % r]
-        if r == bad_at:
+        if r == bad_at or (isinstance(bad_at, (list, tuple)) and r in bad_at):
             if bad_kind == "cell":
                 row = ["x%d" % r, "r%d" % r]
             elif bad_kind == "count":
@@ -53,7 +54,7 @@ def check(ctx, kind, store, header, nrows, bad_at, bad_kind, limit, api):
     model, table = build(kind, header, nrows, bad_at, bad_kind)
     source, raw, name = gen.make_source(ctx, model, table, store)
     run = RM.expected_run(model, raw, validate_until=limit)
-    near = bad_at is not None and (abs(bad_at - header) <= 1 or (limit is not None and abs(bad_at - limit) <= 1))
+    near = bad_at is not None and any(abs(b - header) <= 1 or (limit is not None and abs(b - limit) <= 1) for b in (bad_at if isinstance(bad_at, (list, tuple)) else [bad_at]))
     ctx.case(case, near)
     ctx.count("api.%s" % api)
     first_error = next((e for e in run["items"] if e[0] == "error"), None)
@@ -188,6 +189,17 @@ def run(ctx):
                                     if api == "rows" and index % 5 == 0:
                                         file_store = store.replace("stream", "file")
                                         check(ctx, kind, file_store, header, nrows, bad_at, bad_kind, limit, "reader-twice" if index % 10 == 0 else "rows-cid-path")
+    # two bad rows: every row is judged by its own number, however many rows before it were rejected
+    for store in ("delimited-stream", "fixed-stream"):
+        kind = gen.KIND_OF_STORAGE[store]
+        for header in range(0, 3):
+            for nrows in range(2, 7):
+                for first_bad, second_bad in itertools.combinations(range(1, nrows + 1), 2):
+                    for limit in [None] + list(range(0, nrows + 2)):
+                        index += 1
+                        if ctx.mine(index):
+                            check(ctx, kind, store, header, nrows, [first_bad, second_bad], "cell", limit, "rows")
+                            ctx.count("cases.with-two-bad-rows")
     # a sample of ODS / XLSX in the quick tier too
     if ctx.quick:
         for store in ("ods", "xlsx"):
